@@ -38,6 +38,10 @@ class Module:
         self.sha256 = hashlib.sha256(data).hexdigest()
         self.source = data.decode("utf-8")
         self.tree = ast.parse(self.source, filename=self.path)
+        # functions that equal their reference version up to local renames / == operand order / docstrings are analysed under the reference names (sa/alpha.py)
+        from . import alpha
+
+        self.alpha_normalised = alpha.normalise(self.tree, relpath) if os.environ.get("SA_NO_ALPHA") != "1" else []
         self.name = modname(relpath)
         for node in ast.walk(self.tree):
             for child in ast.iter_child_nodes(node):
@@ -374,6 +378,15 @@ def _canon_fact(expr: ast.expr, positive: bool) -> Tuple[str, bool]:
     return src(expr), positive
 
 
+def _sym(expr: ast.expr) -> str:
+    """Text of a fact; the operands of the symmetric comparisons == and `is` are put in a fixed (textual) order, so `a == b` and `b == a` are the same fact."""
+    if isinstance(expr, ast.Compare) and len(expr.ops) == 1 and isinstance(expr.ops[0], (ast.Eq, ast.Is)):
+        a, b = src(expr.left), src(expr.comparators[0])
+        if b < a and not (isinstance(expr.ops[0], ast.Is) and b == "None"):
+            return src(ast.Compare(left=expr.comparators[0], ops=expr.ops, comparators=[expr.left]))
+    return src(expr)
+
+
 def facts_of_condition(expr: ast.expr, positive: bool, kind: str = "cond") -> List[Fact]:
     res = []
     for e, p in _split(expr, positive):
@@ -469,9 +482,21 @@ def facts(node: ast.AST, stop_at: Optional[ast.AST] = None, inherit_closure: boo
     return res
 
 
+def _swapped(text: str) -> str:
+    """`b == a` for `a == b` (also `is`): the symmetric comparisons are the same fact in either order."""
+    try:
+        e = ast.parse(text, mode="eval").body
+    except SyntaxError:
+        return text
+    if isinstance(e, ast.Compare) and len(e.ops) == 1 and isinstance(e.ops[0], (ast.Eq, ast.Is)):
+        return src(ast.Compare(left=e.comparators[0], ops=e.ops, comparators=[e.left]))
+    return text
+
+
 def has_fact(fs: Iterable[Fact], text: str, positive: bool = True) -> bool:
     t, p = _canon_fact(ast.parse(text, mode="eval").body, positive)
-    return any(f.text == t and f.positive == p for f in fs)
+    t2 = _swapped(t)
+    return any((f.text == t or f.text == t2) and f.positive == p for f in fs)
 
 
 def always_raising_locals(fn: ast.AST) -> Set[str]:
